@@ -405,6 +405,30 @@ func StructTables(u Universe, emit func(Table)) {
 		}
 		anyTable("nested/map[string][]int", pinned(nmaps), A, B, emit)
 	}
+	var nilmaps = sortedCopy(u["nilmaps"])
+	{
+		var val = func(v Desc) any {
+			if v.K == "nil" {
+				return nil
+			}
+			return leafInt(v.C)
+		}
+		var A, B = make([]any, len(nilmaps)), make([]any, len(nilmaps))
+		for _, kind := range []string{"gomap", "Map", "Catalog"} {
+			var vals = pinned(nilmaps)
+			if kind == "Catalog" {
+				vals = make([]Val, len(nilmaps))
+				for i, d := range nilmaps {
+					vals[i] = Val{D: assocSeq(d.Ps), Pin: true}
+				}
+			}
+			for i, d := range nilmaps {
+				A[i] = buildMap(d, kind, leafString, val, false)
+				B[i] = buildMap(d, kind, leafString, val, true)
+			}
+			anyTable("nilmaps/"+kind+"/string-any", vals, A, B, emit)
+		}
+	}
 	var withnil = sortedCopy(u["withnil"])
 	{
 		var leafAny = func(e Desc) any {
